@@ -1254,25 +1254,60 @@ func runEff1(m *Model, r *RuleResult) {
 		r.undecided("anchor", "-", "(*Edge).Reverse", "not found")
 		return
 	}
-	e := rev.Params[0]
+	e := ssa.Value(rev.Params[0])
 	pos := m.Pos(rev.Pos())
 	// list operations
 	want := map[string]bool{"remove Out of From": false, "remove In of To": false, "add In of From": false, "add Out of To": false}
 	extra := []string{}
-	var firstStore ssa.Instruction
-	eachInstr(rev, func(in ssa.Instruction) {
-		if st, ok := in.(*ssa.Store); ok && firstStore == nil {
+	isEndStore := func(in ssa.Instruction) bool {
+		if st, ok := in.(*ssa.Store); ok {
 			if fa, ok := st.Addr.(*ssa.FieldAddr); ok {
 				_, steps := fieldChain(fa)
 				l := locOfSteps(steps)
-				if l == igEdge+".From" || l == igEdge+".To" {
-					firstStore = in
-				}
+				return l == igEdge+".From" || l == igEdge+".To"
+			}
+		}
+		return false
+	}
+	// helpers of the package that finish the job on the same edge (e.g. swapEnds): their stores count as Reverse's own
+	type helperCall struct {
+		in ssa.CallInstruction
+		fn *ssa.Function
+		pe ssa.Value // the helper's parameter that is the edge
+	}
+	var helpers []helperCall
+	eachInstr(rev, func(in ssa.Instruction) {
+		ci, ok := in.(ssa.CallInstruction)
+		if !ok {
+			return
+		}
+		c := ci.Common().StaticCallee()
+		if c == nil || m.fx.listPrim[c] != "" || pkgPathOf(c) != pkgPathOf(rev) || len(c.Blocks) == 0 {
+			return
+		}
+		for i, a := range ci.Common().Args {
+			if a == e && i < len(c.Params) {
+				helpers = append(helpers, helperCall{ci, c, c.Params[i]})
 			}
 		}
 	})
-	endpointOf := func(v ssa.Value) string {
-		// v = load of e.From / e.To, read before the first store to From/To
+	// the first point at which From/To change: a direct store or the call of such a helper
+	var firstStore ssa.Instruction
+	eachInstr(rev, func(in ssa.Instruction) {
+		if firstStore != nil {
+			return
+		}
+		if isEndStore(in) {
+			firstStore = in
+		}
+		for _, h := range helpers {
+			if ssa.Instruction(h.in) == in {
+				firstStore = in
+			}
+		}
+	})
+	endpointIn := func(v ssa.Value, ev ssa.Value, first ssa.Instruction) string {
+		// v = load of ev.From / ev.To, read before the first change of From/To
 		u, ok := v.(*ssa.UnOp)
 		if !ok || u.Op != token.MUL {
 			return "?"
@@ -1282,10 +1317,10 @@ func runEff1(m *Model, r *RuleResult) {
 			return "?"
 		}
 		base, steps := fieldChain(fa)
-		if base != e {
+		if base != ev {
 			return "?"
 		}
-		if firstStore != nil && !instrDominates(u, firstStore) {
+		if first != nil && !instrDominates(u, first) {
 			return "?(read after From/To were overwritten)"
 		}
 		switch locOfSteps(steps) {
@@ -1296,9 +1331,18 @@ func runEff1(m *Model, r *RuleResult) {
 		}
 		return "?"
 	}
+	endpointOf := func(v ssa.Value) string { return endpointIn(v, e, firstStore) }
+	isHelperCall := func(in ssa.Instruction) bool {
+		for _, h := range helpers {
+			if ssa.Instruction(h.in) == in {
+				return true
+			}
+		}
+		return false
+	}
 	eachInstr(rev, func(in ssa.Instruction) {
 		ci, ok := in.(ssa.CallInstruction)
-		if !ok {
+		if !ok || isHelperCall(in) {
 			return
 		}
 		c := ci.Common().StaticCallee()
@@ -1342,37 +1386,58 @@ func runEff1(m *Model, r *RuleResult) {
 			r.violation("reverse:"+k, pos, "Reverse must perform: "+k, "adjacency lists no longer agree with From/To after a reversal (extra/unrecognised: "+strings.Join(extra, ", ")+")")
 		}
 	}
-	// field stores
+	// field stores, in Reverse itself and in its helpers
 	stores := map[string]string{}
-	eachInstr(rev, func(in ssa.Instruction) {
-		st, ok := in.(*ssa.Store)
-		if !ok {
-			return
-		}
-		fa, ok := st.Addr.(*ssa.FieldAddr)
-		if !ok {
-			extra = append(extra, "store through "+st.Addr.String())
-			return
-		}
-		base, steps := fieldChain(fa)
-		l := locOfSteps(steps)
-		if base != e {
-			extra = append(extra, "store into "+l+" of another object")
-			return
-		}
-		switch l {
-		case igEdge + ".From", igEdge + ".To":
-			stores[l] = endpointOf(st.Val)
-		case igEdge + ".IsReversed":
-			if u, ok := st.Val.(*ssa.UnOp); ok && u.Op == token.NOT && isLoadOf(u.X, igEdge+".IsReversed") {
-				stores[l] = "negated"
-			} else {
-				stores[l] = st.Val.String()
+	scan := func(fn *ssa.Function, ev ssa.Value) {
+		var first ssa.Instruction
+		eachInstr(fn, func(in ssa.Instruction) {
+			if first == nil && isEndStore(in) {
+				first = in
 			}
-		default:
-			extra = append(extra, "store into "+l)
+		})
+		if fn == rev {
+			first = firstStore
 		}
-	})
+		eachInstr(fn, func(in ssa.Instruction) {
+			if fn != rev {
+				// a helper does nothing but store: any call in it is an extra effect
+				if ci, ok := in.(ssa.CallInstruction); ok {
+					extra = append(extra, "call of "+calleeFullName(ci.Common())+" in "+funcKey(fn))
+				}
+			}
+			st, ok := in.(*ssa.Store)
+			if !ok {
+				return
+			}
+			fa, ok := st.Addr.(*ssa.FieldAddr)
+			if !ok {
+				extra = append(extra, "store through "+st.Addr.String())
+				return
+			}
+			base, steps := fieldChain(fa)
+			l := locOfSteps(steps)
+			if base != ev {
+				extra = append(extra, "store into "+l+" of another object")
+				return
+			}
+			switch l {
+			case igEdge + ".From", igEdge + ".To":
+				stores[l] = endpointIn(st.Val, ev, first)
+			case igEdge + ".IsReversed":
+				if u, ok := st.Val.(*ssa.UnOp); ok && u.Op == token.NOT && isLoadOf(u.X, igEdge+".IsReversed") {
+					stores[l] = "negated"
+				} else {
+					stores[l] = st.Val.String()
+				}
+			default:
+				extra = append(extra, "store into "+l)
+			}
+		})
+	}
+	scan(rev, e)
+	for _, h := range helpers {
+		scan(h.fn, h.pe)
+	}
 	chk := func(key, desc string, ok bool, detail string) {
 		if ok {
 			r.holds(key, pos, desc)
@@ -1462,19 +1527,26 @@ func runEff2(m *Model, r *RuleResult) {
 				}
 			}
 		})
-		rem := map[string]bool{}
-		for _, lo := range listOpsOf(m, isl) {
-			if lo.op == "remove" {
-				rem[lo.loc] = true
+		// list operations of a function and of the helpers of its package that it calls (by location)
+		var opsOf func(f *ssa.Function, op string, depth int, out map[string]bool)
+		opsOf = func(f *ssa.Function, op string, depth int, out map[string]bool) {
+			if f == nil || depth > 2 {
+				return
 			}
-		}
-		add := map[string]bool{}
-		if closure != nil {
-			for _, lo := range listOpsOf(m, closure) {
-				if lo.op == "add" {
-					add[lo.loc] = true
+			for _, lo := range listOpsOf(m, f) {
+				if lo.op == op {
+					out[lo.loc] = true
 				}
 			}
+			for _, sc := range staticCalls(f, func(c *ssa.Function) bool { return c != f && pkgPathOf(c) == pkgPathOf(isl) && m.fx.listPrim[c] == "" }) {
+				opsOf(sc.Common().StaticCallee(), op, depth+1, out)
+			}
+		}
+		rem := map[string]bool{}
+		opsOf(isl, "remove", 0, rem)
+		add := map[string]bool{}
+		if closure != nil {
+			opsOf(closure, "add", 0, add)
 		}
 		for _, l := range []string{igNode + ".Out", igNode + ".In", igDG + ".Edges"} {
 			short := strings.TrimPrefix(l, "internal/graph.")
@@ -1503,9 +1575,19 @@ func runEff2(m *Model, r *RuleResult) {
 			return found
 		}
 		selfCond = isSelfTest(isl)
-		if !selfCond {
+		scanFns := []*ssa.Function{isl}
+		for _, sc := range staticCalls(isl, func(c *ssa.Function) bool { return pkgPathOf(c) == pkgPathOf(isl) }) {
+			scanFns = append(scanFns, sc.Common().StaticCallee())
+			if isSelfTest(sc.Common().StaticCallee()) {
+				selfCond = true
+			}
+		}
+		for _, sf := range scanFns {
+			if selfCond {
+				break
+			}
 			// through a one-line accessor such as (*Edge).SelfLoops whose result is branched on
-			eachInstr(isl, func(in ssa.Instruction) {
+			eachInstr(sf, func(in ssa.Instruction) {
 				if call, ok := in.(*ssa.Call); ok {
 					if c := call.Call.StaticCallee(); c != nil && inModule(c) && len(c.Blocks) == 1 && isSelfTest(c) {
 						if refs := call.Referrers(); refs != nil {
@@ -1572,6 +1654,19 @@ func runEff2(m *Model, r *RuleResult) {
 			}
 			ok = guard && elem
 			detail = fmt.Sprintf("guarded by the edge's own IsReversed: %v; ranges over g.Edges: %v", guard, elem)
+			if !ok {
+				// collect-then-reverse: the edges come from a helper of the package that returns, in order, exactly the
+				// elements of g.Edges whose IsReversed is set; they are then reversed unconditionally
+				if u, isU := recv.(*ssa.UnOp); isU {
+					if ia, isIA := u.X.(*ssa.IndexAddr); isIA {
+						if call, isCall := ia.X.(*ssa.Call); isCall && len(controlDepsNoLoop(s.Block(), un)) == 0 {
+							if h := call.Call.StaticCallee(); h != nil && pkgPathOf(h) == pkgPathOf(un) && collectsFlaggedEdges(h) {
+								ok = true
+							}
+						}
+					}
+				}
+			}
 		}
 		if ok {
 			r.holds("unreverse-exactly-flagged", m.Pos(un.Pos()), "UnreverseEdges reverses exactly the edges of g.Edges whose IsReversed is set")
@@ -1658,7 +1753,26 @@ func runEff3(m *Model, r *RuleResult) {
 		}
 		return namedKey(c.Params[0].Type()) == igDG && namedKey(c.Params[1].Type()) == igPar
 	}
-	posSites := staticCalls(p4, isPositioner)
+	// (resolved through the call graph as well: the dispatch may go through a table of function values)
+	type posSite struct {
+		ssa.CallInstruction
+		callee *ssa.Function
+	}
+	var posSites []posSite
+	seenPos := map[*ssa.Function]bool{}
+	eachInstr(p4, func(in ssa.Instruction) {
+		ci, ok := in.(ssa.CallInstruction)
+		if !ok {
+			return
+		}
+		for _, c := range m.Callees(ci) {
+			if isPositioner(c) && !seenPos[c] {
+				seenPos[c] = true
+				posSites = append(posSites, posSite{ci, c})
+			}
+		}
+	})
+	sort.Slice(posSites, func(i, j int) bool { return funcKey(posSites[i].callee) < funcKey(posSites[j].callee) })
 	// Y assignment: callee with Node.Y in Mod
 	ySites := staticCalls(p4, func(c *ssa.Function) bool {
 		e := m.effects[c]
@@ -1666,7 +1780,7 @@ func runEff3(m *Model, r *RuleResult) {
 	})
 	r.stat("positioners", len(posSites))
 	for _, s := range posSites {
-		c := s.Common().StaticCallee()
+		c := s.callee
 		e := m.effects[c]
 		key := "positioner:" + funcKey(c)
 		pos := m.Pos(c.Pos())
@@ -1684,7 +1798,7 @@ func runEff3(m *Model, r *RuleResult) {
 		// Y assignment reachable after the positioner
 		okY := false
 		for _, y := range ySites {
-			if instrReaches(s, y) {
+			if instrReaches(s.CallInstruction, y) {
 				okY = true
 			}
 		}
@@ -1926,4 +2040,90 @@ func noWriteBetween(a, b ssa.Value) bool {
 		}
 	}
 	return false
+}
+
+// controlDepsNoLoop: the control dependences of b other than loop-header tests of its function.
+func controlDepsNoLoop(b *ssa.BasicBlock, f *ssa.Function) []ctrlDep {
+	loops := naturalLoops(f)
+	var out []ctrlDep
+	for _, d := range controlDeps(b) {
+		head := false
+		for _, l := range loops {
+			if l.Head == d.If.Block() {
+				head = true
+			}
+		}
+		if !head {
+			out = append(out, d)
+		}
+	}
+	return out
+}
+
+// collectsFlaggedEdges: h(g) returns a slice built only by append(acc, e) with e an element of g.Edges, each append being
+// control-dependent (within the iteration) on exactly e.IsReversed being true.
+func collectsFlaggedEdges(h *ssa.Function) bool {
+	if len(h.Params) != 1 || namedKey(h.Params[0].Type()) != igDG {
+		return false
+	}
+	loops := naturalLoops(h)
+	n, good := 0, true
+	eachInstr(h, func(in ssa.Instruction) {
+		call, ok := in.(*ssa.Call)
+		if !ok {
+			return
+		}
+		b, ok := call.Call.Value.(*ssa.Builtin)
+		if !ok || b.Name() != "append" || len(call.Call.Args) != 2 {
+			return
+		}
+		// the appended element: varargs slice of a one-element array holding e
+		var elem ssa.Value
+		if sl, ok := call.Call.Args[1].(*ssa.Slice); ok {
+			if arr, ok := sl.X.(*ssa.Alloc); ok {
+				for _, ref := range *arr.Referrers() {
+					if ia, ok := ref.(*ssa.IndexAddr); ok {
+						for _, r2 := range *ia.Referrers() {
+							if st, ok := r2.(*ssa.Store); ok && st.Addr == ssa.Value(ia) {
+								elem = st.Val
+							}
+						}
+					}
+				}
+			}
+		}
+		if elem == nil {
+			good = false
+			return
+		}
+		n++
+		// element of g.Edges
+		isElem := false
+		if u, ok := elem.(*ssa.UnOp); ok && u.Op == token.MUL {
+			if ia, ok := u.X.(*ssa.IndexAddr); ok {
+				for _, o := range originsOf(ia.X, 0) {
+					if o.Kind == "fieldload" && o.Loc == igDG+".Edges" {
+						isElem = true
+					}
+				}
+			}
+		}
+		flagged, other := false, false
+		for _, d := range iterationControlDeps(in.Block(), loops) {
+			if u, ok := d.If.Cond.(*ssa.UnOp); ok && u.Op == token.MUL {
+				if fa, ok := u.X.(*ssa.FieldAddr); ok {
+					base, steps := fieldChain(fa)
+					if base == elem && locOfSteps(steps) == igEdge+".IsReversed" && d.Branch == 0 {
+						flagged = true
+						continue
+					}
+				}
+			}
+			other = true
+		}
+		if !isElem || !flagged || other {
+			good = false
+		}
+	})
+	return n > 0 && good
 }
